@@ -140,11 +140,13 @@ def standin_chunk(args):
         c, hist = C03.random_competition(rnd, N, hj, RVc)
         # also a random prefix of it
         for cut in (len(c.actions), rnd.randrange(N, len(c.actions) + 1)):
-            try:
-                p = c.from_actions(c.actions[:cut])
-            except Exception as e:
-                bad.append((N, hist, 'replaying a prefix of the log raised %s: %s' % (type(e).__name__, str(e)[:80]), None))
-                break
+            # the prefix is rebuilt by applying the logged calls directly (not through from_actions, which is under test)
+            p = hj.HighJumpCompetition()
+            for a, v in c.actions[:cut]:
+                if isinstance(v, dict):
+                    getattr(p, a)(**v)
+                else:
+                    getattr(p, a)(v)
             cnt += 1
             try:
                 w, d = check_competition(p, N, rnd)
